@@ -385,6 +385,13 @@ def consumers_see_all(ctx):
                 exits = [e for bl in blks for e in w.succ.get(bl, ()) if e.dst not in blks and w.term(e.dst)["k"] != "unreachable"]
                 other = [e for e in exits if not (ne is not None and e.src == ne.src and e.dst == ne.dst)]
                 ok = not other and not [c for c in atom_callres(it_atoms) if re.search(r"::(take|skip|filter|step_by)$", c)]
+        if not ok:
+            # ... or an iterator chain over the file resources consumed by a closure (fold / for_each / map / flat_map), unrestricted
+            for bb, t in w.calls():
+                if re.search(r"Iterator>?::(fold|for_each|map|flat_map|try_fold|try_for_each)(::<.*>)?$", callee_decl(t)) and t["args"]:
+                    at = w.prov.operand_atoms(t["args"][0])
+                    if atom_has_field(at, "files", "Resources") and not [c for c in atom_callres(at) if re.search(RESTRICTING, c)]:
+                        ok = True
         ctx.check(ok, f"{short(w.name)}/all-file-resources", [w.loc()], "the watcher does not cover every file resource of the input (inherited ones would not be watched)", props=["C13", "C06"])
     # the per-path lister is called once for every declared path of every resource: each of its call sites sits under iterations (loops / iterator
     # adaptors given a closure) none of which is restricted
@@ -825,7 +832,9 @@ def canonical_dirs(ctx):
                     continue
                 # the key is a parameter of the inserting fn: every call site must pass a canonicalised directory
                 pidx = sorted(a[1] for a in b.prov.operand_atoms(t["args"][1], interproc=False) if a[0] == "param")
-                callers = ctx.r.callers_of(b, prefer=[])
+                # judged on the callers' own code: in a view the parameter of a spliced-in callee is bound to its (canonical) argument, and everything
+                # computed from it - e.g. `dir.join(import)` - would look canonical to a flow-insensitive derivation
+                callers = [(f.bodies[c], cbb, f.bodies[c].term(cbb)) for (c, cbb) in f.cg.call_sites.get(ctx.r.fn_of(b).name, ()) if cbb is not None and f.bodies[c].term(cbb)["k"] == "call"]
                 ok = bool(pidx) and bool(callers)
                 for (cv, cbb, ct) in callers:
                     for i in pidx:
